@@ -119,8 +119,42 @@ partial def replay (F : Facts) (needAll : Bool) (evs : Array TEv) (i : Nat) (s :
           | some s1 => .error ⟨i, s!"post-state of finish {t}: logged l={e.l} ch={e.ch}, model l={s1.l.length} ch={s1.ch.length}"⟩
     | "recv" =>
       if early == some i then replay F needAll evs (i + 1) s none nEarly else
+      -- (c) an executor inside its critical section logs its `finish` (and reads the
+      -- counters) last: a recv logged immediately before a finish may have happened after
+      -- that finish's updateChan
+      let swapped : Option St :=
+        if h2 : i + 1 < evs.size then
+          let e2 := evs[i + 1]
+          if e2.k == "finish" then
+            match step F needAll s (.finish e2.t.toNat) with
+            | some s1 =>
+              match applyRecv F needAll s1 e i with
+              | .ok s2 => if cntOk e2.l s2.l.length && cntOk e2.ch s2.ch.length then some s2 else none
+              | .error _ => none
+            | none => none
+          else none
+        else none
+      let inOrder : Option St :=
+        match applyRecv F needAll s e i with
+        | .ok s1 =>
+          if h2 : i + 1 < evs.size then
+            let e2 := evs[i + 1]
+            if e2.k == "finish" && swapped.isSome then
+              -- keep the logged order only if it explains the finish's counters
+              match step F needAll s1 (.finish e2.t.toNat) with
+              | some s2 => if cntOk e2.l s2.l.length && cntOk e2.ch s2.ch.length then some s1 else none
+              | none => none
+            else some s1
+          else some s1
+        | .error _ => none
+      match inOrder with
+      | some s1 => replay F needAll evs (i + 1) s1 early nEarly
+      | none =>
       match applyRecv F needAll s e i with
-      | .ok s1 => replay F needAll evs (i + 1) s1 early nEarly
+      | .ok _ =>
+        match swapped with
+        | some s2 => replay F needAll evs (i + 2) s2 early (nEarly + 1)
+        | none => .error ⟨i, "unreachable"⟩
       | .error f =>
         -- (c) the value was sent by an executor that is still inside its critical section: it
         -- logs its `finish` (and reads the counters) only after this recv was logged, and the
